@@ -511,6 +511,83 @@ func c12exec(c *h.Ctx, cs *h.Case) {
 				} else if t.Root.RosterIndex != first && cs.Class != "boundary" {
 					cs.Fail("nary-root", fmt.Sprintf("root is roster member %d, expected the first match %d — %s", t.Root.RosterIndex, first, op))
 				}
+			case len(tk) == 7 && tk[1] == "narymut":
+				// the roster is searched (a tree is generated), then two entries of its list are exchanged
+				// in place, then the generator is called with a root given by key: it must be looked up
+				// in the list as it is now
+				N, ok1 := atoi(tk[2])
+				i, ok2 := atoi(tk[3])
+				j, ok3 := atoi(tk[4])
+				var keys []int
+				ok4 := true
+				for _, f := range strings.Split(tk[6], ",") {
+					v, ok := atoi(f)
+					ok4 = ok4 && ok
+					keys = append(keys, v)
+				}
+				rootKey, ok5 := -1, tk[5] == "nil"
+				if !ok5 {
+					rootKey, ok5 = atoi(tk[5])
+				}
+				if !ok1 || !ok2 || !ok3 || !ok4 || !ok5 || i >= len(keys) || j >= len(keys) {
+					return
+				}
+				var sis []*network.ServerIdentity
+				seen := map[int]bool{}
+				distinctKeys := true
+				for _, k := range keys {
+					sis = append(sis, c12si(k, k))
+					distinctKeys = distinctKeys && !seen[k]
+					seen[k] = true
+				}
+				ro := onet.NewRoster(sis)
+				// every member is looked up once, a tree is generated
+				for _, si := range ro.List {
+					ro.Search(si.ID)
+				}
+				if N >= 1 {
+					ro.GenerateNaryTreeWithRoot(N, ro.List[len(ro.List)-1])
+				}
+				ro.List[i], ro.List[j] = ro.List[j], ro.List[i]
+				keys[i], keys[j] = keys[j], keys[i]
+				first := -1
+				for p, k := range keys {
+					if k == rootKey && first < 0 {
+						first = p
+					}
+				}
+				var root *network.ServerIdentity
+				if tk[5] != "nil" {
+					orig := c12si(rootKey, rootKey)
+					root = network.NewServerIdentity(orig.Public, orig.Address)
+				} else {
+					first = 0
+				}
+				t := ro.GenerateNaryTreeWithRoot(N, root)
+				if t == nil {
+					obs = "none"
+					if first >= 0 && cs.Class != "boundary" {
+						cs.Fail("nary-nil", "no tree although the root asked for is roster member "+strconv.Itoa(first)+" — "+op)
+					}
+					return
+				}
+				obs = c12dump(t)
+				if first < 0 {
+					cs.Fail("nary-unexpected-tree", "a tree was generated for a root that is not in the roster — "+op)
+					return
+				}
+				if distinctKeys {
+					check(ro, t, c12want{"nary", len(keys), N, len(keys), first, true}, "")
+				} else if t.Root.RosterIndex != first && cs.Class != "boundary" {
+					cs.Fail("nary-root", fmt.Sprintf("root is roster member %d, expected the first match %d — %s", t.Root.RosterIndex, first, op))
+				}
+				// the lookups themselves, on the list as it is now
+				for p, si := range ro.List {
+					if q, e := ro.Search(si.ID); distinctKeys && (q != p || e != si) && cs.Class != "boundary" {
+						cs.Fail("nary-search-stale", fmt.Sprintf("after two entries of the list were exchanged Search finds member %d at %d — %s", p, q, op))
+						break
+					}
+				}
 			case len(tk) == 4 && tk[1] == "bigempty":
 				N, ok1 := atoi(tk[2])
 				nodes, ok2 := atoi(tk[3])
@@ -766,6 +843,7 @@ func c12exec(c *h.Ctx, cs *h.Case) {
 }
 
 func c12gen(c *h.Ctx, yield func(*h.Case)) {
+	b5boundSearch(c)
 	r := c.Rng
 	emit := func(class string, ops []string) {
 		c.Count("class=" + class)
@@ -932,6 +1010,25 @@ func c12gen(c *h.Ctx, yield func(*h.Case)) {
 		}
 		emit("nary by key", ops)
 	}
+	// --- a roster whose list is changed in place between two uses (two entries exchanged) -------------
+	for n := 2; n <= c.Pick(9, 14); n++ {
+		perm := r.Perm(3 * n)
+		keys := perm[:n]
+		var ops []string
+		for rep := 0; rep < 4; rep++ {
+			i, j := r.Intn(n), r.Intn(n)
+			if rep == 0 {
+				i, j = 0, n-1
+			}
+			root := fmt.Sprint(keys[[]int{i, j, r.Intn(n)}[rep%3]])
+			if rep == 3 {
+				root = "nil"
+			}
+			ops = append(ops, fmt.Sprintf("c12 narymut %d %d %d %s %s", 1+r.Intn(3), i, j, root, h.Ints(keys)))
+		}
+		ops = append(ops, fmt.Sprintf("c12 narymut 2 0 1 %d %s", perm[n], h.Ints(keys))) // absent root
+		emit("nary over a roster changed in place", ops)
+	}
 	for i := 0; i < c.Pick(10, 60); i++ {
 		// outside the domain of the node-id clause: a roster that lists a server several times
 		// (Search finds the first entry); model and code must still agree
@@ -1028,6 +1125,7 @@ func c12gen(c *h.Ctx, yield func(*h.Case)) {
 		"c12 naryk 2 nil", "c12 naryk x nil 1,2", "c12 naryk 2 y 1,2", "c12 naryk 2 1 1,,2", "c12 bigempty 2", "c12 bigempty a 1",
 		"c12 znary 0 0 2", "c12 znary a 3 2", "c12 zbig 0 0 3 0,1", "c12 zbig 0 2 3", "c12 zbig 0 2 x 0,1",
 		"c12 sim 0 2 1 0", "c12 sim 3 2 0 0", "c12 sim 3 2 1 2", "c12 sim 3 2 1", "c12 simlocal 0 2", "c12 simlocal 2", "c12 simnil 3", "c12 simnil a 2",
+		"c12 narymut 2 0 5 1 1,2,3", "c12 narymut 2 0 1 1", "c12 narymut x 0 1 1 1,2", "c12 narymut 2 0 1 y 1,2",
 		"c12 npred 0 2 0 2", "c12 npred 3 2 3 2", "c12 npred 3 2 0", "c12 npred 3 x 0 2", "c12 bpred 0 3 0,1 2", "c12 bpred 2 3 - 2", "c12 bpred 2 3 0,1", "c12 bpred 2 5000 0,1 2"})
 }
 
